@@ -1,7 +1,6 @@
 package main
 
 import (
-	"bytes"
 	"fmt"
 	"io/fs"
 	"os"
@@ -11,6 +10,7 @@ import (
 	"strconv"
 	"strings"
 	"testing/fstest"
+	"time"
 
 	"github.com/open2b/scriggo/ast"
 	"github.com/open2b/scriggo/ast/astutil"
@@ -29,12 +29,15 @@ import (
 //	            reading of the ast struct types
 //	clone-model model `clone cloned` vs. the shape of the real copy, on every tree
 //	walk-model  model `walk walked` vs. the multiset of nodes the real Walk visits
+//	paren-model / pos-model   the extracted control-flow skeleton of the clone arms (which exit
+//	            copies the parenthesis count, where the position comes from) vs. the real clone
 //	never-nil / annotations-empty / nil-safety   the written assumptions of the model
 //
 // Oracles on the real code (kind "property"), independent of the model, on every tree parsed
 // from the corpus and from generated sources:
 //
-//	clone-equal, clone-dump-equal, clone-shares-memory, clone-mutation-reaches-original,
+//	clone-equal, clone-attributes (Parenthesis(), position, String() of every node),
+//	clone-dump-equal, clone-shares-memory, clone-mutation-reaches-original,
 //	clone-panics, walk-visits-every-node-once, walk-panics, inspect-equals-walk
 func main() { hx.Main("C28", run) }
 
@@ -194,11 +197,13 @@ func ptrOfNode(n ast.Node) uintptr {
 type runner struct {
 	c         *hx.Ctx
 	neverNil  map[string]map[string]bool
+	neverPar  map[string]map[string]bool // assumption neverParenthesised
 	walkRows  map[string]string // failing walk row "Call.Func" -> known finding id
 	lines     []string          // pending driver requests
 	expect    []func(resp string)
 	kindsSeen map[string]int
 	reported  map[string]int
+	noTie     bool // oracles only (streams whose trees add nothing to the model ties)
 }
 
 // failure of one oracle on one tree
@@ -211,38 +216,26 @@ type failure struct {
 // oracles evaluates the property itself on the real code for one parsed tree.
 func (r *runner) oracles(tree ast.Node) []failure {
 	var fs []failure
-	before := canonOf(tree)
-	var clone ast.Node
-	if p := try(func() { clone = astutil.CloneNode(tree) }); p != "" {
-		fs = append(fs, failure{clause: "clone-panics", detail: short(p, 300)})
-	} else {
-		if c := canonOf(clone); c != before {
-			i := 0
-			for i < len(c) && i < len(before) && c[i] == before[i] {
-				i++
-			}
-			lo := max(i-60, 0)
-			fs = append(fs, failure{clause: "clone-equal", detail: "orig …" + short(before[lo:], 160) + " / copy …" + short(c[lo:], 160)})
-		}
-		var d1, d2 bytes.Buffer
-		p1 := try(func() { astutil.Dump(&d1, tree) })
-		p2 := try(func() { astutil.Dump(&d2, clone) })
-		if p1 == "" && p2 == "" && d1.String() != d2.String() {
-			fs = append(fs, failure{clause: "clone-dump-equal", detail: short(d2.String(), 200)})
-		}
-		ro, rc := map[uintptr]string{}, map[uintptr]string{}
-		refs(reflect.ValueOf(tree), ro, "")
-		refs(reflect.ValueOf(clone), rc, "")
-		for p, w := range rc {
-			if wo, shared := ro[p]; shared {
-				fs = append(fs, failure{clause: "clone-shares-memory", detail: w + " of the copy is " + wo + " of the original"})
-				break
+	fs = append(fs, cloneOracles(tree, "CloneNode", func() ast.Node { return astutil.CloneNode(tree) })...)
+	if t, ok := tree.(*ast.Tree); ok {
+		fs = append(fs, cloneOracles(tree, "CloneTree", func() ast.Node { return astutil.CloneTree(t) })...)
+	}
+	// every node of the tree cloned by itself with each cloning function that accepts it
+	// (bounded: the cost is nodes × depth)
+	if tp := build(tree, true); tp.count() <= subCloneLimit {
+		fs = append(fs, subCloneOracles(tp)...)
+	}
+	// one failure per clause and tree: the first (the root with CloneNode comes first)
+	{
+		seen := map[string]bool{}
+		var first []failure
+		for _, f := range fs {
+			if !seen[f.clause] {
+				seen[f.clause] = true
+				first = append(first, f)
 			}
 		}
-		smash(reflect.ValueOf(clone), map[uintptr]bool{})
-		if after := canonOf(tree); after != before {
-			fs = append(fs, failure{clause: "clone-mutation-reaches-original", detail: "the original changed after every field of the copy was overwritten"})
-		}
+		fs = first
 	}
 	// walk
 	tw := build(tree, false)
@@ -411,6 +404,11 @@ func (r *runner) checkTree(in *input, tree ast.Node, parsed bool, label string) 
 		}
 		t.each(func(x *tnode) {
 			for _, f := range x.fields {
+				for _, ch := range f.children {
+					if e, ok := ch.node.(ast.Expression); ok && r.neverPar[x.kind][f.path] && e.Parenthesis() != 0 {
+						res.AddBreak(proto.Break{Kind: "correspondence", Name: "never-parenthesised", Case: label, Human: in.human(), Impl: fmt.Sprintf("%s.%s has %d parentheses in a parsed tree", x.kind, f.path, e.Parenthesis()), Model: "neverParenthesised " + x.kind + " lists " + f.path})
+					}
+				}
 				if r.neverNil[x.kind][f.path] && len(f.children) == 0 {
 					res.AddBreak(proto.Break{Kind: "correspondence", Name: "never-nil", Case: label, Human: in.human(), Impl: x.kind + "." + f.path + " is nil in a parsed tree", Model: "neverNil " + x.kind + " lists " + f.path})
 				}
@@ -447,7 +445,7 @@ func (r *runner) checkTree(in *input, tree ast.Node, parsed bool, label string) 
 			res.AddBreak(proto.Break{Kind: "property", Name: f.clause, Case: label, Human: small.human(), Impl: detail, Model: "the copy is an independent equal tree; Walk visits every node of the tree exactly once"})
 		}
 	}
-	if r.c.D == nil {
+	if r.c.D == nil || r.noTie {
 		return
 	}
 	// clone tie: the model's copy vs. the shape of the real copy
@@ -607,6 +605,10 @@ func (r *runner) tables() {
 		for _, f := range r.ask("C28 neverNil " + k) {
 			r.neverNil[k][f] = true
 		}
+		r.neverPar[k] = map[string]bool{}
+		for _, f := range r.ask("C28 neverParenthesised " + k) {
+			r.neverPar[k][f] = true
+		}
 		res.Count("table "+k, true)
 	}
 	sort.Strings(annots)
@@ -642,12 +644,14 @@ func (r *runner) replayFindings() {
 }
 
 func run(c *hx.Ctx) error {
+	tStart := time.Now()
+	subCloneLimit = c.N(100, 400)
 	// proto.NewRand(seed) starts seed k at the state seed 1 reaches after k-1 draws: the streams
 	// of different seeds are shifts of one another. Re-key from the first output.
 	c.R = proto.NewRand(c.R.U64())
 	res := c.Res
-	res.Rule = "trees parsed (through the verif hook on compiler.ParseProgram / ParseTemplate) from the corpus /repo/test/compare/testdata (every .go file and .dir program, every template) and from grammar-generated programs and template file systems (extends/import/render, macros, using, raw, URLs), plus synthetic nodes of every kind (all children set / random children nil) for the model ties only; a case is one tree, distinct by source, non-trivial when the tree has at least 8 nodes"
-	r := &runner{c: c, neverNil: map[string]map[string]bool{}, kindsSeen: map[string]int{}, reported: map[string]int{},
+	res.Rule = "trees parsed (through the verif hook on compiler.ParseProgram / ParseTemplate) from the corpus /repo/test/compare/testdata (every .go file and .dir program, every template) and from grammar-generated programs and template file systems (extends/import/render, macros, using, raw, URLs), plus the parenthesis matrix (every expression form of the grammar with 0/1/2 enclosing parentheses in every expression position of templates and programs; every expression kind of the schema with 0/1/2 parentheses in every child slot of every node kind that accepts it, cloned with CloneExpression / CloneNode / CloneTree), every node of a tree of at most 100 (thorough: 400) nodes also cloned by itself with every cloning function that accepts it, plus synthetic nodes of every kind (all children set / random children nil) for the model ties only; a case is one tree, distinct by source, non-trivial when the tree has at least 8 nodes"
+	r := &runner{c: c, neverNil: map[string]map[string]bool{}, neverPar: map[string]map[string]bool{}, kindsSeen: map[string]int{}, reported: map[string]int{},
 		walkRows: map[string]string{"Call.Func": "walk-call-func", "Func.Ident": "walk-func-children", "Func.Type": "walk-func-children", "Func.Body": "walk-func-children"}}
 	if c.D != nil {
 		r.tables()
@@ -718,6 +722,19 @@ func run(c *hx.Ctx) error {
 			res.Sample(map[string]string{"input": in.name, "source": short(in.human(), 400)})
 		}
 		r.checkTree(in, tree, true, in.name+"#"+strconv.FormatUint(c.Seed, 10))
+	}
+
+	// every expression form x 0/1/2 parentheses x every expression position (sources)
+	t0 := time.Now()
+	r.parenSources()
+	t1 := time.Now()
+	// every expression kind x 0/1/2 parentheses x every slot of every node kind that accepts it
+	if c.D != nil { // the written assumptions (neverNil, neverParenthesised) are read through the driver
+		r.parenSynthetic()
+		r.attrTies()
+	}
+	if os.Getenv("C28_TIMES") != "" {
+		fmt.Fprintf(os.Stderr, "paren sources %v, synthetic+ties %v, before %v\n", t1.Sub(t0), time.Since(t1), t0.Sub(tStart))
 	}
 
 	// synthetic nodes of every kind: ties only
